@@ -198,6 +198,12 @@ def _strip_line_comment(line: str, marker: str) -> str:
     inq, esc, i = '', False, 0
     while i < len(line):
         ch = line[i]
+        if not inq and line.startswith('{{', i):       # Jinja expressions (`{{ t.extent // 8 }}`) are not target text
+            j = line.find('}}', i)
+            if j < 0:
+                return line
+            i = j + 2
+            continue
         if inq:
             if esc:
                 esc = False
@@ -360,7 +366,7 @@ class Parser:
                 line = raw
                 if self.lang == 'py':
                     line = '' if raw.lstrip().startswith('#') else _strip_line_comment(raw, '#')
-                elif not raw.lstrip().startswith('#'):
+                else:       # also on preprocessor lines (`#include <x> // why`)
                     line = _strip_line_comment(raw, '//')
                 line = self.subst_tmp(' '.join(line.split()))
                 if not line:
@@ -706,8 +712,8 @@ def render(prefix: str, base_import: bool = True) -> typing.Tuple[str, typing.Li
 
 # the templates that DECLARE the generated data types (storage type per primitive, array member shapes, the dummy member of
 # field-less structures, the union tag member): C01's storage proviso and C04's object model rest on them
-DECL_FILES = [('c', ['definitions.j2']),
-              ('cpp', ['_composite_type.j2', '_fields.j2', '_fields_as_union.j2', '_fields_as_variant.j2']),
+DECL_FILES = [('c', ['definitions.j2', 'base.j2']),
+              ('cpp', ['base.j2', '_composite_type.j2', '_fields.j2', '_fields_as_union.j2', '_fields_as_variant.j2']),
               ('py', ['base.j2'])]
 
 IMPORTS = 'From Coq Require Import List String.\nFrom Verif Require Import TplTieBase.\nImport ListNotations.\nLocal Open Scope string_scope.\n\n'
@@ -752,7 +758,10 @@ def review() -> int:
     new, _ = render('walker_')
 
     def defs(text):
-        return {m.group(1): m.group(2) for m in re.finditer(r'Definition walker_(\w+) :[^\n]*:=\n(.*?)\]\.\n(?=\nDefinition|\Z)', text + '\n', re.S)}
+        out = {}
+        for part in re.split(r'\nDefinition walker_', '\n' + text)[1:]:
+            out[part.split(' ', 1)[0]] = part.split(':=', 1)[1]
+        return out
     o, n = defs(old), defs(new)
     rc = 0
     for k in sorted(o):
